@@ -12,7 +12,7 @@ fn literal_tables_equal_shipped_tables_bitwise() {
     for k in 0..NUM_TABLES {
         let (knots, z) = shipped.raw(k);
         assert_eq!(z.to_bits(), Z_BOUNDS[k].to_bits(), "z bound of slice {k}");
-        let lit = table(k);
+        let lit = table(k, 0);
         assert_eq!(knots.len(), lit.len(), "knot count of slice {k}");
         for (i, (a, b)) in knots.iter().zip(lit.iter()).enumerate() {
             assert_eq!(a.0.to_bits(), b.0.to_bits(), "t slice {k} knot {i}");
@@ -26,7 +26,7 @@ fn literal_tables_equal_shipped_tables_bitwise() {
 fn hook_built_tables_answer_like_shipped_tables() {
     let shipped = VerifDriftTables::shipped();
     for k in 0..NUM_TABLES {
-        let lit = table(k);
+        let lit = table(k, 0);
         let built = VerifDriftTables::new(&[(lit, Z_BOUNDS[k])]);
         let z = if k == 0 { 0.0 } else { 0.5 * (Z_BOUNDS[k - 1] + Z_BOUNDS[k]) };
         for i in 0..lit.len() {
@@ -47,7 +47,7 @@ fn hook_built_tables_answer_like_shipped_tables() {
 #[test]
 fn table_shape_assumed_by_the_oracles() {
     for k in 0..NUM_TABLES {
-        let t = table(k);
+        let t = table(k, 0);
         assert!(t.len() >= 2);
         for w in t.windows(2) {
             assert!(w[0].0 < w[1].0, "times ascend");
@@ -57,6 +57,53 @@ fn table_shape_assumed_by_the_oracles() {
         assert!(t[0].2 >= 0.0);
         if k > 0 {
             assert!(Z_BOUNDS[k - 1] < Z_BOUNDS[k]);
+        }
+    }
+}
+
+#[test]
+fn static_aliasing_tables_answer_like_shipped_tables() {
+    use uom::si::f64::Length;
+    use uom::si::length::meter;
+    use vphys::drift_data::qtable;
+    let shipped = VerifDriftTables::shipped();
+    for k in 0..NUM_TABLES {
+        let lit = table(k, 0);
+        let built = VerifDriftTables::from_static(&[(qtable(k, 0), Length::new::<meter>(Z_BOUNDS[k]))]);
+        let z = if k == 0 { 0.0 } else { 0.5 * (Z_BOUNDS[k - 1] + Z_BOUNDS[k]) };
+        for i in 0..lit.len() {
+            let t = if i + 1 < lit.len() { 0.5 * (lit[i].0 + lit[i + 1].0) } else { lit[i].0 };
+            let a = shipped.at(z, t).unwrap();
+            let b = built.at(z, t).unwrap();
+            assert_eq!(a.0.to_bits(), b.0.to_bits());
+            assert_eq!(a.1.to_bits(), b.1.to_bits());
+        }
+    }
+}
+
+
+#[test]
+fn windows_are_consecutive_knots_of_their_table() {
+    for k in 0..NUM_TABLES {
+        let full = table(k, 0);
+        let n = full.len();
+        let f = table(k, 1);
+        let l = table(k, 2);
+        let m = table(k, 3);
+        assert_eq!(f, &full[..f.len()]);
+        assert_eq!(l, &full[n - l.len()..]);
+        let a = n / 2 - m.len() / 2;
+        assert_eq!(m, &full[a..a + m.len()]);
+        use uom::si::{angle::radian, length::meter, time::second};
+        for mode in 0..4 {
+            let t = table(k, mode);
+            let q = vphys::drift_data::qtable(k, mode);
+            assert_eq!(t.len(), q.len());
+            for (x, y) in t.iter().zip(q.iter()) {
+                assert_eq!(x.0.to_bits(), y.0.get::<second>().to_bits());
+                assert_eq!(x.1.to_bits(), y.1.get::<meter>().to_bits());
+                assert_eq!(x.2.to_bits(), y.2.get::<radian>().to_bits());
+            }
         }
     }
 }
